@@ -409,6 +409,44 @@ def expected_of(spec):
             "deletion": {k: sorted(v) for k, v in dele.items()}}
 
 
+def shrink_layout(layout, still_fails, budget=150):
+    """Greedy minimisation of a decorated program: drop lines, then hints, then spelling options."""
+    best = layout
+    changed = True
+    while changed and budget > 0:
+        changed = False
+        cands = [best[:i] + best[i + 1:] for i in range(len(best))]
+        for i, l in enumerate(best):
+            for k in range(len(l.get("hints", []))):
+                cands.append(best[:i] + [dict(l, hints=l["hints"][:k] + l["hints"][k + 1:])] + best[i + 1:])
+        for i, l in enumerate(best):
+            if l.get("pad") or any(h.get("gap") or h.get("plus") or h.get("uni") for h in l.get("hints", [])):
+                cands.append(best[:i] + [dict(l, pad=0, hints=[dict(h, gap=0, plus=False, uni=False) for h in l.get("hints", [])])]
+                             + best[i + 1:])
+        for c in cands:
+            budget -= 1
+            if c and still_fails(c):
+                best = c
+                changed = True
+                break
+            if budget <= 0:
+                break
+    return best
+
+
+def roundtrip_failure(impl, drv, layout):
+    """(spec, impl answer, expected) when the decorated program is well formed and the implementation
+    does not return what the hints say; None otherwise."""
+    spec = drv.call("c12.spec_decorate", lines=layout)
+    if not spec["hygienic"] or not impl.admissible(spec["src"]):
+        return None
+    exp = expected_of(spec)
+    if exp is None:
+        return None
+    got = impl.get_program(spec["src"])
+    return (spec, got, exp) if got != exp else None
+
+
 def check_decorated(ctx, impl, drv, judge, stream, layout):
     spec = drv.call("c12.spec_decorate", lines=layout)
     src = spec["src"]
@@ -427,12 +465,15 @@ def check_decorated(ctx, impl, drv, judge, stream, layout):
         judge.report_disagreement(stream, src, got, model)
     if spec["hygienic"] and balanced and notie:
         exp = expected_of(spec)
-        if got != exp:
+        if got != exp and sum(1 for v in ctx.violations if v["replay"].get("kind") == "roundtrip") < 3:
+            small = shrink_layout(layout, lambda l: roundtrip_failure(impl, drv, l) is not None)
+            spec2, got2, exp2 = roundtrip_failure(impl, drv, small)
             ctx.violations.append({
                 "what": "get_program(decorate d) differs from what the hints say (C12_roundtrip)",
                 "signature": None,
-                "replay": {"kind": "roundtrip", "layout": layout, "src": src, "impl": got, "model": model, "spec": exp,
-                           "how": "get_program(src): .source/.addition/.deletion"},
+                "replay": {"kind": "roundtrip", "layout": small, "src": spec2["src"], "impl": got2,
+                           "model": canon_model_program(drv.call("c12.get_program", srcs=[spec2["src"]])["r"][0]),
+                           "spec": exp2, "how": "get_program(src): .source/.addition/.deletion"},
             })
     elif not balanced or not notie:
         v = judge.malformed_verdict(src, got)
@@ -833,7 +874,9 @@ def run(ctx):
         "labels derived by the SQL queries from a hinted label (the queries are an oracle; each SQL stage's deletion loop is proved)",
         "agreement of the hand-written model with the Python (correspondence streams)",
     ]
-    if not ctx.violations and (not ctx.proofs_ok or ctx.broken):
+    known = {k.get("signature") for k in core.load_known() if k.get("property") == ctx.pid and k.get("status") == "finding"}
+    unknown = [v for v in ctx.violations if v.get("signature") is None or v.get("signature") not in known]
+    if not unknown and (not ctx.proofs_ok or ctx.broken):
         ctx.violations.append({
             "no_input": True,
             "what": "a proof or a correspondence stream of C12 no longer checks",
